@@ -126,6 +126,8 @@ GuardVal(c, G, o, i) ==
     [] t.gk = "oracle" -> o.gv[i]
     [] t.gk = "after"  -> o.clk - t.ga >= G.entryT[t.src]
     [] t.gk = "idle"   -> o.clk - t.ga >= G.idleT[t.src]
+    [] t.gk = "afterp" -> o.clk - t.ga >= G.entryT[t.src]
+    [] t.gk = "idlep"  -> o.clk - t.ga >= G.idleT[t.src]
     [] t.gk = "active" -> t.ga \in o.pre.conf
     [] t.gk = "xlt"    -> o.pre.x < t.ga
 
@@ -229,9 +231,10 @@ C03_conf(c, G, o) ==
   C03_applies(c, G, o) => o.post.conf = ConfBefore(o.pre.conf, o.steps, Len(o.steps) + 1)
 
 SentOfDesc(d) ==
-  [j \in 1..Len(d.sends) |-> [k |-> "i", ev |-> d.sends[j].ev, dl |-> d.sends[j].dl,
-                              par |-> d.sends[j].par]]
-  \o [j \in 1..Len(d.nots) |-> [k |-> "m", ev |-> d.nots[j], dl |-> 0, par |-> 0]]
+  LET snd == [j \in 1..Len(d.sends) |-> [k |-> "i", ev |-> d.sends[j].ev, dl |-> d.sends[j].dl,
+                                         par |-> d.sends[j].par]]
+      nts == [j \in 1..Len(d.nots) |-> [k |-> "m", ev |-> d.nots[j], dl |-> 0, par |-> 0]]
+  IN IF d.nf = 1 THEN nts \o snd ELSE snd \o nts
 
 ExpectedSent(c, m) ==
   FlattenSeq([j \in DOMAIN m.exited |-> SentOfDesc(c.exit[m.exited[j]])])
